@@ -239,3 +239,26 @@ def simulate_states(cfgname, module, num, depth, seed, timeout=300):
         return [tlaval.behaviour_with_states(f) for f in files]
     finally:
         shutil.rmtree(w, ignore_errors=True)
+
+
+def confirm_rejections(prop, rej, scenario_of, run_one, module, tmpl, work, keep_events=None, extra=None, max_report=4, attempts=3):
+    """Every rejected scenario is re-executed alone (up to `attempts` times) and re-judged; only a reproduced
+    rejection becomes a violation.  If something was rejected but nothing reproduces the check is inconclusive."""
+    violations, anomalies = [], []
+    for r in rej[:max_report + 4]:
+        if len(violations) >= max_report: break
+        name = r['trace'][0]['scn']; sc = scenario_of(name)
+        ok = False
+        for k in range(attempts):
+            w2 = os.path.join(work, 're_%s_%d' % (re.sub(r'\W', '_', name), k)); os.makedirs(w2, exist_ok=True)
+            tr2 = run_one(sc, w2)
+            _, rej2 = validate_traces(tr2, module, {prop}, tmpl, w2, keep_events=keep_events)
+            if rej2:
+                d = dict(property=prop, scenario=sc, rejected_at=rej2[0]['at'], event=rej2[0]['event'], trace=rej2[0]['trace'])
+                if extra: d.update(extra(name))
+                violations.append((name, save_replay(prop, name, d), rej2[0])); ok = True
+                break
+        if not ok: anomalies.append(name)
+    if rej and not violations:
+        raise ToolError('rejected scenarios did not reproduce in %d attempts: %s' % (attempts, ', '.join(anomalies)))
+    return violations, anomalies
